@@ -59,6 +59,16 @@ CHECKS = {
             "is asserted unequal to Python's result: unsat = equal for all 64-bit operands. Known defective regions demand exactly the documented defective behaviour, so other deviations there are still caught. "
             "The dispatch glue (binary_table, _synthesize_binary, ReversingChecker) runs on the real code under CrossHair. Float // % divmod are only searched for counterexamples (one fpDiv + one fpFMA).",
             "HUGR op semantics table and Python semantics table in lib/e3_num.py (cross-validated against Python reference implementations / CPython on random+boundary operands each run); z3 5.1; import shim", "DESIGN.md §5 C04", "E3"),
+    "C16": ("model_checking",
+            "CrossHair/z3 on the real try_coerce_to/check_type_against for every type pair; SMT obligations (E3) for the value of each conversion dunder",
+            "All 81 (actual, expected) pairs over 3 numeric and 6 non-numeric real types run through the real coercion code with a recording context: a coercion happens iff actual < expected in nat < int < float, "
+            "through __int__/__float__ only. The converted value is decided by SMT over all 64-bit patterns from the live bindings (nat.__int__ identity, convert_u/convert_s = round-to-nearest).",
+            TB + "; recording stand-in for the checker context; lib/e3_num.py tables", "DESIGN.md §5 C16", "E1+E3"),
+    "C12": ("model_checking",
+            "bounded-exhaustive term grammar through the real unify; z3 theory of finite trees (ADTs) decides existence, soundness and most-generality per case",
+            "Every (term, term, prior substitution) of a grammar of real Type objects (262 terms quick / 1870 thorough, 8 consistent prior substitutions) runs through the real unify; the statement's own quantifiers "
+            "('some assignment', 'most general') range over infinitely many assignments and are decided by three z3 ADT queries per case; termination is observed (recursion limit).",
+            "z3 ADT theory as decision procedure for unifiability; the encoding of Type objects into the datatype; import shim", "DESIGN.md §5 C12", "E1"),
 }
 
 NOT_APPLICABLE = {
